@@ -821,6 +821,11 @@ fn scenario(rng: &mut Rng, thorough: bool) -> (Scenario, Vec<String>) {
 /// repeated parities, jumps around the 50 km gate, other message kinds in between (they must not create a
 /// CPR entry), arrival order by generation (time stamps of different aircraft not monotone) or sorted.
 fn scenario_positions(rng: &mut Rng, thorough: bool) -> Scenario {
+    scenario_positions_alt(rng, thorough, false)
+}
+
+/// `low`: half of the aircraft fly below 5000 ft (the closure of `--update-position` answers true on them)
+fn scenario_positions_alt(rng: &mut Rng, thorough: bool, low: bool) -> Scenario {
     let base_lat = rng.f64() * 150.0 - 75.0;
     let base_lon = rng.f64() * 340.0 - 170.0;
     let dy = |x: f64| tick_text((x * 1024.0).round() as i64);
@@ -852,7 +857,7 @@ fn scenario_positions(rng: &mut Rng, thorough: bool) -> Scenario {
         let kt = 100.0 + rng.f64() * 600.0;
         let brg = rng.f64() * std::f64::consts::TAU;
         ps.push(P {
-            ac: Ac { addr, lat: base_lat + (rng.f64() - 0.5) * 0.6, lon: base_lon + (rng.f64() - 0.5) * 0.6, odd: rng.chance(1, 2), alt12: ((rng.below(1600) / 16) << 5) | 0x10 | rng.below(16) },
+            ac: Ac { addr, lat: base_lat + (rng.f64() - 0.5) * 0.6, lon: base_lon + (rng.f64() - 0.5) * 0.6, odd: rng.chance(1, 2), alt12: if low && rng.chance(1, 2) { ((rng.below(400) / 16) << 5) | 0x10 | rng.below(16) } else { ((rng.below(1600) / 16) << 5) | 0x10 | rng.below(16) } },
             t: t0 + rng.below(5 * 1024) as i64,
             surface: rng.chance(1, 3),
             df18: rng.chance(1, 5),
@@ -1365,8 +1370,259 @@ fn process_w(out: &mut Out, jet: &mut Jet, scs: &[ScenarioW]) {
     }
 }
 
+// ------------------------------------------------------------------ several sensors, --update-position (op `snapps`)
+
+/// a history as jet1090's loop sees it with several sensors: `references[serial]`, every record with the serials of
+/// its metadata entries (the first one selects the reference), `--update-position` on or off
+struct ScenarioS {
+    update: bool,
+    refs: Vec<(u64, Option<String>)>,       // declared sensors: serial, reference text `lat,lon`
+    recs: Vec<(String, String, Vec<u64>)>, // (time text, frame hex, serials)
+}
+impl ScenarioS {
+    fn line_as(&self, op: &str) -> String {
+        let mut s = String::from(op);
+        if self.update {
+            s.push_str(" U");
+        }
+        for (sn, r) in &self.refs {
+            s.push_str(&format!(" R{sn}={}", r.as_deref().unwrap_or("-")));
+        }
+        for (t, f, sns) in &self.recs {
+            s.push_str(&format!(" {t}:{f}:{}", sns.iter().map(|x| x.to_string()).collect::<Vec<_>>().join(",")));
+        }
+        s
+    }
+    fn line(&self) -> String {
+        self.line_as("snaps")
+    }
+    fn sub(&self, keep: &[usize]) -> ScenarioS {
+        ScenarioS { update: self.update, refs: self.refs.clone(), recs: keep.iter().map(|i| self.recs[*i].clone()).collect() }
+    }
+    fn plain(&self) -> Scenario {
+        Scenario { reference: None, recs: self.recs.iter().map(|(t, f, _)| (t.clone(), f.clone())).collect() }
+    }
+}
+
+fn parse_line_s(line: &str) -> Option<ScenarioS> {
+    let mut w = line.split_whitespace().peekable();
+    if w.next()? != "snaps" {
+        return None;
+    }
+    let mut sc = ScenarioS { update: false, refs: vec![], recs: vec![] };
+    if w.peek() == Some(&"U") {
+        sc.update = true;
+        w.next();
+    }
+    for tok in w {
+        if let Some(r) = tok.strip_prefix('R') {
+            let (sn, pos) = r.split_once('=')?;
+            sc.refs.push((sn.parse().ok()?, if pos == "-" { None } else { Some(pos.to_string()) }));
+        } else {
+            let mut p = tok.split(':');
+            let (t, f, sns) = (p.next()?, p.next()?, p.next()?);
+            t.parse::<f64>().ok()?;
+            sc.recs.push((t.to_string(), f.to_string(), sns.split(',').map(|x| x.parse().ok()).collect::<Option<_>>()?));
+        }
+    }
+    Some(sc)
+}
+
+/// position-focused traffic (as `scenario_positions`, half of the aircraft below 5000 ft) heard by 1..3 sensors
+fn scenario_sensors(rng: &mut Rng, thorough: bool) -> ScenarioS {
+    let base = scenario_positions_alt(rng, thorough, true);
+    let n = 1 + rng.below(3) as usize;
+    let serials: Vec<u64> = (0..n).map(|i| if rng.chance(1, 3) { rng.below(1 << 40) * 8 + i as u64 } else { i as u64 + 1 }).collect();
+    // the references: the base scenario's reference (near / far / absent) for the first sensor, the others absent,
+    // the same, or displaced by up to 3 x 6 degrees (another surface zone)
+    let dy = |x: f64| tick_text((x * 1024.0).round() as i64);
+    let shift = |rng: &mut Rng, r: &str| {
+        let (la, lo) = r.split_once(',').unwrap();
+        let (la, lo): (f64, f64) = (la.parse().unwrap(), lo.parse().unwrap());
+        format!("{},{}", dy((la + (rng.f64() - 0.5) * 6.0).clamp(-85.0, 85.0)), dy((lo + (rng.f64() - 0.5) * 12.0).clamp(-175.0, 175.0)))
+    };
+    let mut refs: Vec<(u64, Option<String>)> = vec![];
+    for (i, sn) in serials.iter().enumerate() {
+        let r = match (&base.reference, i, rng.below(4)) {
+            (r, 0, _) => r.clone(),
+            (_, _, 0) => None,
+            (Some(r), _, 1) => Some(r.clone()),
+            (Some(r), _, _) => Some(shift(rng, r)),
+            (None, _, _) => None,
+        };
+        refs.push((*sn, r));
+    }
+    if base.reference.is_none() && n > 1 && rng.chance(1, 2) {
+        // only a later sensor has a reference
+        refs[n - 1].1 = Some(format!("{},{}", dy(rng.f64() * 150.0 - 75.0), dy(rng.f64() * 340.0 - 170.0)));
+    }
+    // each aircraft is mostly heard by "its" sensor first; one record in four by several sensors
+    let recs = base
+        .recs
+        .into_iter()
+        .map(|(t, f)| {
+            let home = (u64::from_str_radix(&f[2..8.min(f.len())], 16).unwrap_or(0) % n as u64) as usize;
+            let first = if rng.chance(3, 4) { home } else { rng.below(n as u64) as usize };
+            let mut sns = vec![serials[first]];
+            if n > 1 && rng.chance(1, 4) {
+                for (i, sn) in serials.iter().enumerate() {
+                    if i != first && rng.chance(2, 3) {
+                        sns.push(*sn);
+                    }
+                }
+                if rng.chance(1, 6) {
+                    sns.push(serials[first]); // the same sensor twice (two antennas of one serial)
+                }
+            }
+            (t, f, sns)
+        })
+        .collect();
+    ScenarioS { update: rng.chance(2, 3), refs, recs }
+}
+
+fn refs_text(refs: &Value) -> String {
+    let mut s = String::from(" refs");
+    for r in refs.as_array().map(|a| a.as_slice()).unwrap_or(&[]) {
+        match (canon(&r[1][0]), canon(&r[1][1])) {
+            (Some(la), Some(lo)) if !r[1].is_null() => s.push_str(&format!(" {}={la},{lo}", r[0])),
+            _ => s.push_str(&format!(" {}=-", r[0])),
+        }
+    }
+    s
+}
+
+fn without_position(mut e: Value) -> Value {
+    if let Some(o) = e.as_object_mut() {
+        o.remove("latitude");
+        o.remove("longitude");
+    }
+    e
+}
+
+fn process_s(out: &mut Out, jet: &mut Jet, scs: &[ScenarioS]) {
+    let lines: Vec<String> = scs.iter().map(|s| s.line()).collect();
+    let answers = jet.batch(&lines);
+    let mut subs: Vec<(usize, String, ScenarioS)> = vec![];
+    let mut parsed: Vec<Option<Value>> = vec![];
+    for ((sc, line), ans) in scs.iter().zip(&lines).zip(&answers) {
+        let Ok(j) = serde_json::from_str::<Value>(ans) else {
+            out.fail("driver-answer", line, &format!("not JSON: {}", &ans[..ans.len().min(80)]));
+            parsed.push(None);
+            continue;
+        };
+        // every clause of the property on what the program shows (keys, count, first/last seen, provenance of every
+        // column from the aircraft's own records — positions included: whatever reference was in force, a held
+        // latitude/longitude must be shown by one of the aircraft's own records)
+        let own = judge(out, &sc.plain(), line, &j);
+        let records = j["records"].as_array().cloned().unwrap_or_default();
+        // the references afterwards: untouched without --update-position; with it, every reference is an initial
+        // one (of any sensor: the write-back copies the first sensor's reference to all sensors of a record) or the
+        // position attached to a DF17 airborne record below 5000 ft
+        let initial: BTreeMap<u64, Option<(f64, f64)>> = sc
+            .refs
+            .iter()
+            .map(|(sn, r)| (*sn, r.as_ref().map(|r| { let (a, b) = r.split_once(',').unwrap(); (a.parse().unwrap(), b.parse().unwrap()) })))
+            .collect();
+        let mut moved = 0;
+        for r in j["references"].as_array().map(|a| a.as_slice()).unwrap_or(&[]) {
+            let sn = r[0].as_u64().unwrap_or(u64::MAX);
+            let now = if r[1].is_null() { None } else { Some((r[1][0].as_f64().unwrap_or(f64::NAN), r[1][1].as_f64().unwrap_or(f64::NAN))) };
+            if initial.get(&sn) == Some(&now) {
+                continue;
+            }
+            moved += 1;
+            if !sc.update {
+                out.fail("reference-changed", line, &format!("sensor {sn}: reference {:?} became {now:?} without --update-position", initial.get(&sn)));
+            } else if !initial.values().any(|v| *v == now)
+                && !records.iter().any(|q| {
+                    q["pre"]["df"].as_str() == Some("17")
+                        && q["pre"]["bds"].as_str() == Some("05")
+                        && q["pre"]["altitude"].as_u64().is_some_and(|a| a < 5000)
+                        && now.is_some_and(|(la, lo)| q["pre"]["latitude"].as_f64() == Some(la) && q["pre"]["longitude"].as_f64() == Some(lo))
+                })
+            {
+                out.fail("reference-provenance", line, &format!("sensor {sn}: reference {now:?} is neither an initial reference nor the position of a DF17 airborne record below 5000 ft"));
+            }
+        }
+        out.stat(&format!("snapps:update={}:sensors={}:references-moved={}", sc.update as u8, sc.refs.len(), moved.min(3)));
+        out.stat_n("snapps:records", sc.recs.len() as u64);
+        out.stat_n("snapps:records-heard-by-several-sensors", sc.recs.iter().filter(|r| r.2.len() > 1).count() as u64);
+        for (q, rec) in records.iter().zip(&sc.recs) {
+            let bds = q["pre"]["bds"].as_str().unwrap_or("");
+            if bds == "05" || bds == "06" {
+                let low = q["pre"]["altitude"].as_u64().is_some_and(|a| a < 5000);
+                out.stat(&format!(
+                    "snapps:df{}/bds{bds}{}:{}:{}",
+                    q["pre"]["df"].as_str().unwrap_or("?"),
+                    if low { "/below-5000ft" } else { "" },
+                    if rec.2.len() > 1 { "several-sensors" } else { "one-sensor" },
+                    if q["pre"].get("latitude").is_some_and(|x| !x.is_null()) { "position" } else { "none" }
+                ));
+            }
+        }
+        let exact = sc.recs.iter().all(|(t, _, _)| exact_text(t, 10))
+            && sc.refs.iter().all(|(_, r)| r.as_ref().is_none_or(|r| r.split(',').all(|c| exact_text(c, 20))));
+        let seam = records.iter().any(|r| r["pre"].get("longitude").and_then(|x| x.as_f64()).is_some_and(|x| x.abs() > 179.999));
+        if !exact {
+            out.stat("snapps:not-emitted-inexact-text");
+        } else if seam {
+            out.stat("snapps:not-emitted-antimeridian");
+        } else {
+            out.case(&sc.line_as("snapps"), &format!("{}{}", table_text(&j["table"], canon), refs_text(&j["references"])));
+            out.stat("snapps:emitted");
+        }
+        if own.len() > 1 {
+            for (k, idx) in &own {
+                subs.push((parsed.len(), k.clone(), sc.sub(idx)));
+            }
+        }
+        parsed.push(Some(j));
+    }
+    // re-runs of each aircraft's own records alone (same sensors, same references, same flag):
+    // * without --update-position the entry must be identical, position included;
+    // * with it every column but latitude/longitude must be identical; the position may differ — the reference a
+    //   surface report is decoded against is shared state that low aircraft move, BY DESIGN of the option: recorded
+    //   finding C06-update-reference-moves-surface-reference (Props.C12.pipelineS_update_interference is the witness).
+    //   Counted, not failed.
+    let sub_lines: Vec<String> = subs.iter().map(|(_, _, s)| s.line()).collect();
+    let sub_answers = jet.batch(&sub_lines);
+    for ((si, k, _), ans) in subs.iter().zip(&sub_answers) {
+        let Some(full) = &parsed[*si] else { continue };
+        let update = scs[*si].update;
+        let alone: Value = serde_json::from_str(ans).unwrap_or(Value::Null);
+        let find = |j: &Value| j["table"].as_array().and_then(|t| t.iter().find(|row| row[0].as_str() == Some(k)).map(|row| row[1].clone()));
+        let (a, b) = (find(full), find(&alone));
+        if a.is_none() {
+            out.fail("interference", &lines[*si], &format!("{k}: no entry"));
+            continue;
+        }
+        if !update {
+            out.stat("snapps:rerun:fixed-references");
+            if a != b {
+                out.fail("interference", &lines[*si], &format!("{k}: entry with the other aircraft interleaved {} differs from its entry alone {} (per-sensor references, no --update-position)", a.unwrap_or(Value::Null), b.unwrap_or(Value::Null)));
+            }
+        } else {
+            let (a0, b0) = (a.clone().map(without_position), b.clone().map(without_position));
+            if a0 != b0 {
+                out.fail("interference", &lines[*si], &format!("{k}: with --update-position a column other than latitude/longitude differs: interleaved {} alone {}", a.unwrap_or(Value::Null), b.unwrap_or(Value::Null)));
+            } else if a != b {
+                out.stat("snapps:rerun:update-position:position-differs-from-solo-run(known:C06-update-reference-moves-surface-reference)");
+            } else {
+                out.stat("snapps:rerun:update-position:entry-identical");
+            }
+        }
+    }
+}
+
 pub fn one(out: &mut Out, line: &str) {
     let mut jet = Jet::new(&out.dir.clone());
+    if line.starts_with("snaps ") {
+        match parse_line_s(line) {
+            Some(sc) => process_s(out, &mut jet, &[sc]),
+            None => out.notes.push(format!("bad replay line (expected `snaps [U] R<serial>=<lat>,<lon>|- … <t>:<framehex>:<serial>[,<serial>…] …`): {line}")),
+        }
+        return;
+    }
     // a line with `H…` / `X…` items is a scenario of the three writers
     if line.split_whitespace().skip(1).any(|t| t.starts_with('H') || t.starts_with('X')) {
         match parse_line_w(line) {
@@ -1417,6 +1673,15 @@ pub fn run(out: &mut Out, rng: &mut Rng, thorough: bool) {
         let n = (total - done).min(500);
         let scs: Vec<ScenarioW> = (0..n).map(|_| scenario_writers(rng, thorough)).collect();
         process_w(out, &mut jet, &scs);
+        done += n;
+    }
+    // several sensors with their own references, --update-position (op `snapps`)
+    let total = if thorough { 2000 } else { 300 };
+    let mut done = 0;
+    while done < total {
+        let n = (total - done).min(500);
+        let scs: Vec<ScenarioS> = (0..n).map(|_| scenario_sensors(rng, thorough)).collect();
+        process_s(out, &mut jet, &scs);
         done += n;
     }
     out.notes.push(format!("driver scenarios executed by the real update_snapshot(): {}", jet.lines));
